@@ -191,12 +191,12 @@ def slice1dRaw (dimShape : Nat) (lengths : List Nat) (index : PSlice) : List (Na
 def tidy (lengths : List Nat) (d : List (Nat × PSlice)) : List (Nat × PSlice) :=
   d.map fun (k, v) =>
     match lengths[k]? with
-    | some l => if v == PSlice.ofInts 0 l 1 then (k, colon) else (k, v)
+    | some l => if v = PSlice.ofInts 0 l 1 then (k, colon) else (k, v)
     | none => (k, v)
 
 /-- `_slice_1d(dim_shape, lengths, index)` for a slice `index`: the dict in insertion order. -/
 def slice1d (dimShape : Nat) (lengths : List Nat) (index : PSlice) : List (Nat × PSlice) :=
-  if index == colon then (List.range lengths.length).map (fun i => (i, colon))
+  if index = colon then (List.range lengths.length).map (fun i => (i, colon))
   else
     let d := tidy lengths (slice1dRaw dimShape lengths index)
     if d.isEmpty then [(0, PSlice.ofInts 0 0 1)] else d
@@ -230,10 +230,10 @@ def ceilDiv (a b : Int) : Int :=
 /-- `new_blockdim(dim_shape, lengths, index)` for a slice `index`;
     `none` only if a slice lacked a field or named a missing block (cannot happen, kept explicit). -/
 def newBlockdim (dimShape : Nat) (lengths : List Nat) (index : PSlice) : Option (List Int) :=
-  if index == colon then some (lengths.map (fun (l : Nat) => (l : Int)))
+  if index = colon then some (lengths.map (fun (l : Nat) => (l : Int)))
   else
     (outputOrder index (slice1d dimShape lengths index)).mapM fun (i, slc) =>
-      if slc == colon then
+      if slc = colon then
         match lengths[i]? with
         | some l => some (ceilDiv ((l : Int) - 0) 1)
         | none => none
